@@ -35,6 +35,12 @@ class MachineryFault(Exception):
     pass
 
 
+# Violation classes that are themselves a source of nondeterminism (racy code is
+# UB; output that depends on addresses or stale memory differs between
+# processes): the finding must replay, the event-log hash need not.
+NONDET_CLASSES = ('data_race', 'environment_dependence')
+
+
 def log(msg):
     print(msg, flush=True)
 
@@ -364,19 +370,25 @@ def process_candidates(prop, engine, sim, cands, outdir, seed, tier, max_new=4,
             continue
         # Prefer the smallest witness.
         cs.sort(key=lambda c: plan_complexity(c.get('plan', {})))
-        c = cs[0]
-        plan = copy.deepcopy(c['plan'])
-        frozen_bytes = plan.pop('bytes', None)
-        plan.pop('frozen', None)
-        plan['tier'] = tier
-        # Gate: same plan, two fresh processes (one without ASLR).
-        r1 = exec_plans(sim, engine, [plan], outdir, 'gate1')[0]
-        r2 = exec_plans(sim, engine, [plan], outdir, 'gate2', setarch=True)[0]
-        ok1 = has_violation(r1, prop, cls, sig)
-        ok2 = has_violation(r2, prop, cls, sig)
-        # A data race is itself a source of nondeterminism (racy code is UB):
-        # the finding must reproduce, the result hash need not.
-        hash_ok = r1.get('hash') == r2.get('hash') or cls == 'data_race'
+        # Gate: same plan, two fresh processes (one without ASLR). A witness
+        # whose symptom hangs on what the process did before (e.g. which of two
+        # objects malloc happened to place lower) need not replay in a fresh
+        # process: up to four further witnesses of the same signature are tried
+        # before the candidate is declared irreproducible.
+        for attempt, c in enumerate(cs[:5]):
+            plan = copy.deepcopy(c['plan'])
+            frozen_bytes = plan.pop('bytes', None)
+            plan.pop('frozen', None)
+            plan['tier'] = tier
+            r1 = exec_plans(sim, engine, [plan], outdir, 'gate1')[0]
+            r2 = exec_plans(sim, engine, [plan], outdir, 'gate2', setarch=True)[0]
+            ok1 = has_violation(r1, prop, cls, sig)
+            ok2 = has_violation(r2, prop, cls, sig)
+            # A data race is itself a source of nondeterminism (racy code is
+            # UB): the finding must reproduce, the result hash need not.
+            hash_ok = r1.get('hash') == r2.get('hash') or cls in NONDET_CLASSES
+            if ok1 and ok2 and hash_ok:
+                break
         if race_confirmed and not (ok1 and ok2 and hash_ok):
             # A consequence of the race already reported (racy code is UB, its
             # symptoms need not replay): listed, not gated.
@@ -403,7 +415,12 @@ def process_candidates(prop, engine, sim, cands, outdir, seed, tier, max_new=4,
         # Final execution of the minimised plan, to freeze its bytes.
         rf = exec_plans(sim, engine, [small], outdir, 'final')[0]
         if not has_violation(rf, prop, cls, sig):
-            raise MachineryFault('minimised plan lost the violation')
+            # A shrinking step was accepted on a symptom that does not replay
+            # reliably: report the gated, unminimised plan instead.
+            small, used = plan, used
+            rf = exec_plans(sim, engine, [small], outdir, 'final2')[0]
+            if not has_violation(rf, prop, cls, sig):
+                raise MachineryFault('gated plan lost the violation')
         replay = dict(small)
         if rf.get('bytes') is None and engine == 'chan':
             m = dict(small)
@@ -450,7 +467,7 @@ def replay_file(path, quiet=False):
     r = exec_plans(sim, engine, [plan], outdir, 'replay')[0]
     v = doc['violation']
     ok = has_violation(r, prop, v['cls'], v['signature'])
-    same_hash = r.get('hash') == v.get('hash') or v['cls'] == 'data_race'
+    same_hash = r.get('hash') == v.get('hash') or v['cls'] in NONDET_CLASSES
     if ok and same_hash:
         if not quiet:
             log('VIOLATION property=%s replay=%s' % (prop, path))
@@ -612,7 +629,7 @@ def chan_coverage(summary, sim, samples, prop):
                        'surfaces read no clock, so there is no simulated wall time',
         distinct_nontrivial=summary['distinct_effective'],
         rule='one evaluation = one decoder entry point run on one faulted stream. '
-             'Plans are enumerated (every truncation, 7 byte / 11 word / 24 varint '
+             'Plans are enumerated (every truncation, 14 byte / 11 word / 24 varint '
              'patterns at every offset, 360 header rewrites per small substrate; '
              'every tamper event x 4 replacements of curated substrates) and seeded '
              '(multi-site swarm plans, splices). A case is non-trivial when the fault '
